@@ -40,7 +40,10 @@ Next == UNCHANGED c
 
 \* whatever the instance: rejected, or exactly the issued credential; nothing recoverable in clear
 CaseRec == [fam |-> "tamper", in |-> c, req |-> [acceptedDifferent |-> 0, leak |-> FALSE, instances |-> [ge |-> 1], panic |-> FALSE]
-                                              @@ (IF c.op \in ForeignOps THEN [accepted |-> 0] ELSE <<>>)]
+                                              @@ (IF c.op \in ForeignOps THEN [accepted |-> 0] ELSE <<>>)
+                                              \* adopted: saves that took the store key or the encryption secret for the new session from the planted
+                                              \* cookie - the planter could then read the entry ("nothing the proxy did not itself produce is accepted")
+                                              @@ (IF c.op = "planted" THEN [adopted |-> 0] ELSE <<>>)]
 EmitVocab == JsonSerialize("vocab.json", Vocab)
 EmitCase  == CSVWrite("%1$s", <<ToJson(CaseRec)>>, "cases.ndjson")
 =============================================================================
